@@ -855,7 +855,8 @@ class TrueTypeFont:
                         for c in range(sc, ec + 1):
                             char2gid[c] = (c + idd) & 0xFFFF
             else:
-                assert False, str(("Unhandled", fmttype))
+                # other subtable formats (6, 12, ...) are not supported
+                continue
         if not char2gid:
             raise TrueTypeFont.CMapNotFound
         # create unicode map
